@@ -1,9 +1,9 @@
 #!/bin/bash
 # run_all.sh <tier>: runs every claimed check sequentially (evidence is rewritten by each check)
 TIER=${1:-quick}
-cd /verif
+cd "$(dirname "$0")/.."
 for id in $(python3 -c "import json;print(' '.join(c['property_id'] for c in json.load(open('MANIFEST.json'))['checks']))"); do
   echo "== $id"
-  timeout ${2:-2400} python3 check.py $id --tier $TIER 2>&1 | grep -v "^WARN inconclusive\|^KNOWN" | tail -4 | cut -c1-300
+  timeout ${2:-2400} python3 ./check.py $id --tier $TIER 2>&1 | grep -v "^WARN inconclusive\|^KNOWN" | tail -4 | cut -c1-300
   echo "rc=$?"
 done
